@@ -10,6 +10,7 @@ mod json;
 mod plan;
 mod rt;
 mod sc_holder;
+mod sc_queue;
 mod toy;
 mod wmodel;
 mod writer;
@@ -73,6 +74,7 @@ fn run_spec(spec: &Spec) -> common::Report {
         ),
         "holder" => sc_holder::run(spec),
         "holderseq" => sc_holder::run_seq(spec),
+        "queue" => sc_queue::run(spec),
         other => {
             let mut r = common::Report::new(&spec.raw);
             r.errors.push(format!("unknown engine {:?}", other));
@@ -85,6 +87,7 @@ fn run_spec(spec: &Spec) -> common::Report {
 fn scenario_of(spec: &Spec) -> Option<Box<dyn explore::Scenario>> {
     match spec.engine.as_str() {
         "holder" => Some(Box::new(sc_holder::scenario(&spec.str("prog", "S1.G")))),
+        "queue" => Some(Box::new(sc_queue::scenario(spec))),
         _ => None,
     }
 }
